@@ -185,3 +185,22 @@ func TestPrefixThatNoKeyCanHaveListsNothing(t *testing.T) {
 		}
 	}
 }
+
+// Key names are UTF-8. A key with a directory component that is not valid UTF-8 was stored; from then on every listing of
+// the bucket that walks over it failed with 500 (io/fs refuses such a path), for every client, until the key was deleted.
+func TestAKeyThatIsNotUTF8IsRefusedAndCannotBreakTheListing(t *testing.T) {
+	g := gwtest.Start(t, gwtest.Options{})
+	g.MustStatus(g.Put(g.RootC, "/bkt", nil, nil), 200, "create bucket")
+	g.MustStatus(g.Put(g.RootC, "/bkt/good", []byte("x"), nil), 200, "put good")
+	r := g.Put(g.RootC, "/bkt/d%FF/x", []byte("x"), nil)
+	if r.Err != nil {
+		t.Fatalf("no answer: %v", r.Err)
+	}
+	l := g.Get(g.RootC, "/bkt", nil)
+	if l.Status != 200 || !strings.Contains(string(l.Body), "<Key>good</Key>") {
+		t.Errorf("after PUT /bkt/d%%FF/x (answered %d) the bucket listing answers %d %s", r.Status, l.Status, l.Body)
+	}
+	if r.Status/100 == 2 {
+		t.Errorf("a key that is not valid UTF-8 was stored (%d)", r.Status)
+	}
+}
